@@ -171,8 +171,22 @@ theorem specAdd_refines {m : Nat} (hm : 1 ≤ m) {es : List Entry} {log : List C
 section
 variable {F : Type} (C : Codec F)
 
-/-- the strings of an entry survive encoding/json -/
-def Entry.Valid (valid : Bytes → Prop) (e : Entry) : Prop := valid e.query ∧ valid e.context
+/-- the strings of an entry survive encoding/json, its instant has an RFC 3339 text, its integers fit Go's `int` -/
+def Entry.Valid (valid : Bytes → Prop) (okT okI : Int → Prop) (e : Entry) : Prop :=
+  valid e.query ∧ valid e.context ∧ okT e.ts ∧ okI e.results ∧ okI e.duration
+
+/-- The codec laws as far as `Save` / `Load` use them: the parser reads back the documents `Save` writes
+    (not every `JVal`), strings in `valid` survive, instants in `okT` survive; `okI` is the range of the integers written.  `Codec.Laws` (all values, all
+    instants) implies them; the executable codec of `Model/HistoryJson.lean` satisfies THESE for valid UTF-8
+    and calendar instants of the years 1 .. 9999 (`Props/C16b.lean`), which it could not for `Codec.Laws`. -/
+structure Codec.LawsOn (valid : Bytes → Prop) (okT okI : Int → Prop) : Prop where
+  parse_print : ∀ s : State, okI s.maxSize → (∀ e ∈ s.entries, e.Valid valid okT okI) → C.parse (C.print (encode C s)) = some (encode C s)
+  print_nonempty : ∀ s : State, C.isEmpty (C.print (encode C s)) = false
+  unquote_quote : ∀ b, valid b → C.unquote (C.quote b) = b
+  parseTime_fmtTime : ∀ t, okT t → C.parseTime (C.fmtTime t) = some t
+
+theorem Codec.Laws.on {valid : Bytes → Prop} (L : C.Laws valid) : Codec.LawsOn C valid (fun _ => True) (fun _ => True) :=
+  ⟨fun _ _ _ => L.parse_print _, fun _ => L.print_nonempty _, L.unquote_quote, fun t _ => L.parseTime_fmtTime t⟩
 
 theorem foldKey_kQuery : foldKey kQuery = kQuery := by decide
 theorem foldKey_kTimestamp : foldKey kTimestamp = kTimestamp := by decide
@@ -182,12 +196,12 @@ theorem foldKey_kDuration : foldKey kDuration = kDuration := by decide
 theorem foldKey_kEntries : foldKey kEntries = kEntries := by decide
 theorem foldKey_kMaxSize : foldKey kMaxSize = kMaxSize := by decide
 
-theorem storeEntry_enc {valid : Bytes → Prop} (L : C.Laws valid) (e : Entry) (hv : e.Valid valid) :
+theorem storeEntry_enc {valid : Bytes → Prop} {okT okI : Int → Prop} (L : Codec.LawsOn C valid okT okI) (e : Entry) (hv : e.Valid valid okT okI) :
     storeEntry C Entry.zero (encEntry C e) = ⟨e, false, false⟩ := by
   obtain ⟨q, t, r, c, d⟩ := e
   have hq : C.unquote (C.quote q) = q := L.unquote_quote q hv.1
-  have hc : C.unquote (C.quote c) = c := L.unquote_quote c hv.2
-  have ht : C.parseTime (C.fmtTime t) = some t := L.parseTime_fmtTime t
+  have hc : C.unquote (C.quote c) = c := L.unquote_quote c hv.2.1
+  have ht : C.parseTime (C.fmtTime t) = some t := L.parseTime_fmtTime t hv.2.2.1
   have k1 : (kTimestamp = kQuery) = False := by decide
   have k2 : (kResults = kQuery) = False := by decide
   have k3 : (kResults = kTimestamp) = False := by decide
@@ -203,7 +217,7 @@ theorem storeEntry_enc {valid : Bytes → Prop} (L : C.Laws valid) (e : Entry) (
       foldKey_kQuery, foldKey_kTimestamp, foldKey_kResults, foldKey_kContext, foldKey_kDuration,
       k1, k2, k3, k4, k5, k6, k7, k8, k9, k10, hq, hc, ht, h1, h2]
 
-theorem storeElems_enc {valid : Bytes → Prop} (L : C.Laws valid) (es : List Entry) (hv : ∀ e ∈ es, e.Valid valid)
+theorem storeElems_enc {valid : Bytes → Prop} {okT okI : Int → Prop} (L : Codec.LawsOn C valid okT okI) (es : List Entry) (hv : ∀ e ∈ es, e.Valid valid okT okI)
     (done : List Entry) (err : Bool) :
     storeElems C (es.map (encEntry C)) done [] err = ⟨(done ++ es, []), err, false⟩ := by
   induction es generalizing done err with
@@ -215,7 +229,7 @@ theorem storeElems_enc {valid : Bytes → Prop} (L : C.Laws valid) (es : List En
     rw [ih (fun x hx => hv x (by simp [hx]))]
     simp
 
-theorem unmarshal_encode {valid : Bytes → Prop} (L : C.Laws valid) (s : State) (hv : ∀ e ∈ s.entries, e.Valid valid) :
+theorem unmarshal_encode {valid : Bytes → Prop} {okT okI : Int → Prop} (L : Codec.LawsOn C valid okT okI) (s : State) (hv : ∀ e ∈ s.entries, e.Valid valid okT okI) :
     unmarshal C DState.zero (encode C s) = (⟨s.entries, s.maxSize, []⟩, false) := by
   have k : (kMaxSize = kEntries) = False := by decide
   have h := storeElems_enc C L s.entries hv [] false
@@ -228,12 +242,12 @@ theorem unmarshal_encode {valid : Bytes → Prop} (L : C.Laws valid) (s : State)
       foldKey_kMaxSize, k, h, hne]
 
 /-- Loading what `Save` wrote gives back exactly the saved state — whatever the receiver held. -/
-theorem load_saveBytes {valid : Bytes → Prop} (L : C.Laws valid) (P : Params) (r s : State)
-    (hm : 0 < s.maxSize) (hv : ∀ e ∈ s.entries, e.Valid valid) :
+theorem load_saveBytes {valid : Bytes → Prop} {okT okI : Int → Prop} (L : Codec.LawsOn C valid okT okI) (P : Params) (r s : State)
+    (hm : 0 < s.maxSize) (hi : okI s.maxSize) (hv : ∀ e ∈ s.entries, e.Valid valid okT okI) :
     load C P r (some (saveBytes C s)) = (s, none) := by
   have hnp : ¬ s.maxSize ≤ 0 := by omega
   unfold load saveBytes
-  simp only [L.print_nonempty, Bool.false_eq_true, ↓reduceIte, L.parse_print, unmarshal_encode C L s hv, hm]
+  simp only [L.print_nonempty, Bool.false_eq_true, ↓reduceIte, L.parse_print s hi hv, unmarshal_encode C L s hv, hm]
   cases hg : P.loadGuard <;> cases hf : P.loadFallback <;> simp [hnp]
 
 end
